@@ -51,7 +51,17 @@ const schemaFields = `name: String
 	u: Int %s
 	n: Int @crdt(type: pncounter)
 	p: Int @crdt(type: pcounter)
-	nf: Float @crdt(type: pncounter)`
+	nf: Float @crdt(type: pncounter)
+	x00: Int
+	x01: Int
+	x02: Int
+	x03: Int
+	x04: Int
+	x05: Int
+	x06: Int
+	x07: Int
+	x08: Int
+	x09: Int`
 
 func SDL(config string) string {
 	dir, si, ii, ui := "", "", "", ""
@@ -66,23 +76,28 @@ func SDL(config string) string {
 	return fmt.Sprintf("type Doc %s {\n\t"+schemaFields+"\n}", dir, si, ii, ui)
 }
 
-var registerFields = []string{"s", "i", "f", "b", "t", "j", "a", "bl", "u"}
+// x00..x09 pad the schema to more than 20 fields so that field short ids 20..24 exist next to id 2
+// (head-store keys are prefix-scanned: "/d/<doc>/2" must not match "/d/<doc>/20/...").
+var registerFields = []string{"s", "i", "f", "b", "t", "j", "a", "bl", "u", "x05", "x07", "x09"}
 var counterFields = []string{"n", "p", "nf"}
 var allFields = append(append([]string{"name"}, registerFields...), counterFields...)
 
 var domains = map[string][]any{
-	"s":  {"a", "b", nil},
-	"i":  {1, 2, nil},
-	"f":  {0.5, 2.25, nil},
-	"b":  {true, false, nil},
-	"t":  {"2020-01-02T03:04:05Z", "2021-06-07T08:09:10.123456789Z", nil},
-	"j":  {map[string]any{"k": 1}, []any{1, 2}, "x", nil},
-	"a":  {[]any{1}, []any{1, 2}, nil},
-	"bl": {"00ff", "ab", nil},
-	"u":  {10, 20, 30, nil},
-	"n":  {-1, 1, 2, 3},
-	"p":  {1, 2, 3},
-	"nf": {0.5, -0.5, 1.25},
+	"s":   {"a", "b", nil},
+	"i":   {1, 2, nil},
+	"f":   {0.5, 2.25, nil},
+	"b":   {true, false, nil},
+	"t":   {"2020-01-02T03:04:05Z", "2021-06-07T08:09:10.123456789Z", nil},
+	"j":   {map[string]any{"k": 1}, []any{1, 2}, "x", nil},
+	"a":   {[]any{1}, []any{1, 2}, nil},
+	"bl":  {"00ff", "ab", nil},
+	"u":   {10, 20, 30, nil},
+	"x05": {1, 2, nil},
+	"x07": {1, 2, nil},
+	"x09": {1, 2, nil},
+	"n":   {-1, 1, 2, 3},
+	"p":   {1, 2, 3},
+	"nf":  {0.5, -0.5, 1.25},
 }
 
 // commitInfo is the ground truth about one composite commit, read from its block and from
@@ -101,6 +116,8 @@ type commitInfo struct {
 type replica struct {
 	n *core.Node
 	M map[string]bool // merged composite cids (ancestor closed)
+	// MC: merged collection-level commits (branchable collections)
+	MC map[string]bool
 	// deletedSeen: docs observed as deleted on this replica (for no-resurrection)
 	deletedSeen map[string]bool
 	// uniqBlocked: a merge failed legitimately on a uniqueness constraint
@@ -123,6 +140,10 @@ type Sim struct {
 	shape   map[string]bool
 	failed  bool
 	nameSeq int
+	// collection-level commits (branchable)
+	colCommits map[string]*colCommit
+	colOrder   []string
+	colSrc     map[string]int
 }
 
 func (s *Sim) logf(f string, a ...any) { s.log = append(s.log, fmt.Sprintf(f, a...)) }
@@ -136,12 +157,13 @@ func (s *Sim) violate(sig, msg string) {
 func Run(ctx context.Context, c core.Case, rec *core.Rec, o Oracles) {
 	var p Params
 	c.P(&p)
-	s := &Sim{ctx: ctx, P: p, O: o, rng: c.Rng(), rec: rec, commits: map[string]*commitInfo{}, src: map[string]int{}, shape: map[string]bool{}}
+	s := &Sim{ctx: ctx, P: p, O: o, rng: c.Rng(), rec: rec, commits: map[string]*commitInfo{}, src: map[string]int{}, shape: map[string]bool{},
+		colCommits: map[string]*colCommit{}, colSrc: map[string]int{}}
 	for i := 0; i < p.Replicas; i++ {
 		n := core.NewNode(ctx, core.NodeOpts{Store: p.Store, Signing: false})
 		_, err := n.DB.AddSchema(ctx, SDL(p.Config))
 		core.Must(err)
-		s.reps = append(s.reps, &replica{n: n, M: map[string]bool{}, deletedSeen: map[string]bool{}})
+		s.reps = append(s.reps, &replica{n: n, M: map[string]bool{}, MC: map[string]bool{}, deletedSeen: map[string]bool{}})
 	}
 	defer func() {
 		for _, r := range s.reps {
@@ -232,6 +254,7 @@ func (s *Sim) recordLocal(r int, docID string, writes map[string]any) {
 		s.order = append(s.order, h)
 		s.src[h] = r
 	}
+	s.recordLocalCol(r)
 }
 
 func (s *Sim) readCommit(n *core.Node, c string) *commitInfo {
@@ -531,8 +554,18 @@ func (s *Sim) mixed(steps, localPct int) {
 			if s.knows(r, d) && s.rng.IntN(3) == 0 {
 				s.del(r, d)
 			}
+		case x < localPct+4 && len(s.order) > 0:
+			// a read-only time-travel query at an arbitrary known commit: must not change anything
+			c := s.order[s.rng.IntN(len(s.order))]
+			if s.reps[r].M[c] {
+				s.timeTravel(r, c)
+			}
 		default:
 			if len(s.order) == 0 {
+				continue
+			}
+			if s.branchable() && len(s.colOrder) > 0 && s.rng.IntN(3) == 0 {
+				s.deliverCol(r, s.colOrder[s.rng.IntN(len(s.colOrder))], "")
 				continue
 			}
 			// prefer older commits: index drawn from a distribution skewed to the past
@@ -690,6 +723,20 @@ func (s *Sim) updateWith(r int, docID string, w map[string]any) {
 	s.afterStep(r, docID, "update")
 }
 
+// timeTravel issues a versioned read of commit c on replica r and re-runs the step oracles: a
+// query is read-only, so heads, values and the DAG must be exactly as before.
+func (s *Sim) timeTravel(r int, c string) {
+	ci := s.commits[c]
+	before := s.docView(r, ci.DocID)
+	_, errs := s.reps[r].n.GQL(s.ctx, fmt.Sprintf(`query { Doc(cid: "%s", docID: "%s") { _docID name s n } }`, c, ci.DocID))
+	s.rec.Count("time_travel_reads", 1)
+	s.logf("time-travel read of %s(h%d) of %s on r%d errs=%v", c[len(c)-5:], ci.Height, short(ci.DocID), r, errs)
+	if after := s.docView(r, ci.DocID); after != before {
+		s.violate("read-only-query-changed-document", fmt.Sprintf("a time-travel query changed the current state of the document: before=%s after=%s", before, after))
+	}
+	s.afterStep(r, ci.DocID, "time-travel-read")
+}
+
 // antiEntropy delivers every head of every replica to every other replica, shuffled, twice.
 func (s *Sim) antiEntropy() {
 	nn := len(s.reps)
@@ -714,8 +761,27 @@ func (s *Sim) antiEntropy() {
 				}
 			}
 		}
+		if s.branchable() {
+			for i := 0; i < nn; i++ {
+				for _, h := range s.colHeads(i) {
+					if s.colCommits[h] == nil {
+						continue
+					}
+					for j := 0; j < nn; j++ {
+						if i != j {
+							s.colSrc[h] = i
+							all = append(all, dl{j, "col:" + h})
+						}
+					}
+				}
+			}
+		}
 		s.rng.Shuffle(len(all), func(a, b int) { all[a], all[b] = all[b], all[a] })
 		for _, x := range all {
+			if strings.HasPrefix(x.c, "col:") {
+				s.deliverCol(x.dst, strings.TrimPrefix(x.c, "col:"), "AE ")
+				continue
+			}
 			s.deliver(x.dst, x.c, "AE ")
 		}
 	}
@@ -724,7 +790,7 @@ func (s *Sim) antiEntropy() {
 // ---------------------------------------------------------------------------------------
 // oracles
 
-const viewQuery = `query { Doc(showDeleted: true%s) { _docID _deleted name s i f b t j a bl u n p nf } }`
+const viewQuery = `query { Doc(showDeleted: true%s) { _docID _deleted name s i f b t j a bl u n p nf x05 x07 x09 } }`
 
 func (s *Sim) docView(r int, docID string) string {
 	data, errs := s.reps[r].n.GQL(s.ctx, fmt.Sprintf(viewQuery, fmt.Sprintf(`, docID: "%s"`, docID)))
@@ -957,7 +1023,7 @@ func (s *Sim) quiescence() {
 	}
 	s.rec.Count("evaluations", 1)
 	q0, e0 := s.reps[0].n.GQL(s.ctx, fmt.Sprintf(viewQuery, ""))
-	l0, _ := s.reps[0].n.GQL(s.ctx, `query { Doc { _docID name s i f b t j a bl u n p nf } }`)
+	l0, _ := s.reps[0].n.GQL(s.ctx, `query { Doc { _docID name s i f b t j a bl u n p nf x05 x07 x09 } }`)
 	for i := 1; i < nn; i++ {
 		q, e := s.reps[i].n.GQL(s.ctx, fmt.Sprintf(viewQuery, ""))
 		if q != q0 || strings.Join(e, ";") != strings.Join(e0, ";") {
@@ -966,7 +1032,7 @@ func (s *Sim) quiescence() {
 			s.violate("diverge/documents", fmt.Sprintf("after every replica merged every commit, r0 and r%d return different documents (showDeleted view)", i))
 			break
 		}
-		l, _ := s.reps[i].n.GQL(s.ctx, `query { Doc { _docID name s i f b t j a bl u n p nf } }`)
+		l, _ := s.reps[i].n.GQL(s.ctx, `query { Doc { _docID name s i f b t j a bl u n p nf x05 x07 x09 } }`)
 		if l != l0 {
 			s.logf("r0: %s", l0)
 			s.logf("r%d: %s", i, l)
@@ -994,6 +1060,17 @@ func (s *Sim) quiescence() {
 				s.logf("r0 field heads: %v", f0)
 				s.logf("r%d field heads: %v", i, fi)
 				s.violate(sig, fmt.Sprintf("after every replica merged every commit, r0 and r%d report different field-level head commits for %s", i, short(d)))
+				break
+			}
+		}
+	}
+	if s.branchable() {
+		h0 := strings.Join(s.colHeads(0), ",")
+		for i := 1; i < nn; i++ {
+			if h := strings.Join(s.colHeads(i), ","); h != h0 {
+				s.logf("r0 collection heads: %s", h0)
+				s.logf("r%d collection heads: %s", i, h)
+				s.violate("diverge/collection-heads", fmt.Sprintf("after every replica merged every commit, r0 and r%d report different collection-level head commits", i))
 				break
 			}
 		}
@@ -1195,7 +1272,11 @@ func (s *Sim) audit(r int, kind string) {
 						s.violate("audit/dangling-field-parent", fmt.Sprintf("r%d: parent %s of field block %s (%s) is not stored", r, h.Cid, l.Cid, l.Name))
 						continue
 					}
-					if p := n.MustBlock(s.ctx, h.Cid).Delta.GetPriority(); p > fmax {
+					pblk := n.MustBlock(s.ctx, h.Cid)
+					if pblk.Delta.GetFieldName() != fblk.Delta.GetFieldName() || string(pblk.Delta.GetDocID()) != string(fblk.Delta.GetDocID()) {
+						s.violate("audit/field-parent-of-another-field", fmt.Sprintf("r%d: field block %s of field %q names as parent a block of field %q (doc %s / %s): the per-field DAGs are entangled", r, l.Cid, fblk.Delta.GetFieldName(), pblk.Delta.GetFieldName(), short(string(fblk.Delta.GetDocID())), short(string(pblk.Delta.GetDocID()))))
+					}
+					if p := pblk.Delta.GetPriority(); p > fmax {
 						fmax = p
 					}
 				}
@@ -1316,6 +1397,7 @@ func (s *Sim) audit(r int, kind string) {
 			}
 		}
 	}
+	s.auditCol(r, kind)
 	if multi {
 		s.rec.Count("audits_with_multi_head_frontier", 1)
 	}
